@@ -8,335 +8,10 @@ import (
 	"github.com/gobwas/ws"
 )
 
-// C06_size_exact: for every requested size n in [1, 2^40] on either side the header space
-// reserved for a buffer of n+headerSize(n) bytes is exactly headerSize(n), i.e.
-// NewWriterSize(..., n).Size() == n across the 125/126 and 65535/65536 thresholds.
-func C06_size_exact() {
-	n := vInt("n")
-	vAssume(vAnd(n >= 1, n <= 1<<40))
-	st := vSide(vBool("server"))
-	hs := headerSize(st, n)
-	want := 2
-	if n > 125 {
-		want = 4
-	}
-	if n > 65535 {
-		want = 10
-	}
-	if st.ClientSide() {
-		want += 4
-	}
-	vAssert(hs == want, "size.headersize_rfc")
-	vAssert(reserve(st, n+hs) == hs, "size.reserve_matches_headersize")
-	// monotone: a bigger raw buffer never reserves less
-	m := vInt("m")
-	vAssume(vAnd(m >= n, m <= 1<<41))
-	vAssert(reserve(st, m) >= reserve(st, n), "size.reserve_monotone")
-	// header space always suffices for any payload that fits behind it
-	raw := vInt("raw")
-	vAssume(vAnd(raw >= 3, raw <= 1<<40))
-	off := reserve(st, raw)
-	vAssume(raw > off)
-	pl := vInt("pl")
-	vAssume(vAnd(pl >= 0, pl <= raw-off))
-	vAssert(headerSize(st, pl) <= off, "size.header_fits_reserved_space")
-}
-
 func vMkWriter(dst io.Writer, server bool, bufLen int, op ws.OpCode) *Writer {
 	off := 2
 	if !server {
 		off = 6
 	}
 	return NewWriterBuffer(dst, vSide(server), op, make([]byte, off+bufLen))
-}
-
-// C06_op_step (inductive step): one arbitrary operation from an arbitrary valid writer state.
-func C06_op_step() {
-	server := vChoose("side", 2) == 0
-	sizes := []int{1, 2, 5}
-	if vTier() > 0 {
-		sizes = []int{1, 2, 3, 5, 8}
-	}
-	bufLen := sizes[vChoose("buflen", len(sizes))]
-	op := ws.OpCode(1 + vChoose("op", 2))
-	dst := &vDst{failAt: -1}
-	w := vMkWriter(dst, server, bufLen, op)
-	// arbitrary pre-state
-	n := vChoose("n", bufLen+1)
-	old := vBytes("old", n)
-	copy(w.buf, old)
-	w.n = n
-	if vChoose("fseqpos", 2) == 1 {
-		w.fseq = vInt("fseq")
-		vAssume(vAnd(w.fseq > 0, w.fseq < 1<<40))
-	}
-	w.dirty = vBool("dirty")
-	vAssume(vImplies(w.fseq > 0, w.dirty))
-	vAssume(vImplies(n > 0, w.dirty)) // bytes get into the buffer only through Write/ReadFrom, which mark it dirty
-	w.noFlush = vBool("noflush")
-	fseq0, dirty0, noFlush := w.fseq, w.dirty, w.noFlush
-	size0 := w.Size()
-
-	maxP := 2*bufLen + 1
-	// write sizes at the boundaries relative to the free space A = bufLen-n:
-	// 0, 1, A-1, A, A+1, bufLen, bufLen+1, 2*bufLen+1 (deduplicated); quick: all 0..maxP for small buffers
-	var wlens []int
-	if bufLen <= 2 {
-		for i := 0; i <= maxP; i++ {
-			wlens = append(wlens, i)
-		}
-	} else {
-		seen := map[int]bool{}
-		for _, v := range []int{0, 1, bufLen - n - 1, bufLen - n, bufLen - n + 1, bufLen, bufLen + 1, maxP} {
-			if v >= 0 && !seen[v] {
-				seen[v] = true
-				wlens = append(wlens, v)
-			}
-		}
-	}
-	pickLen := func() int { return wlens[vChoose("plen", len(wlens))] }
-	var accepted []byte
-	isFlush := false
-	kind := vChoose("kind", 6)
-	switch kind {
-	case 0: // Write
-		p := vBytes("p", pickLen())
-		keep := append([]byte{}, p...)
-		k, err := w.Write(p)
-		vAssert(vAnd(err == nil, k == len(p)), "step.write_accepts_all")
-		vAssert(vEqBytes(p, keep), "step.write_caller_intact")
-		accepted = keep
-		if len(p) <= bufLen-n {
-			vAssert(len(dst.calls) == 0, "step.write_that_fits_emits_nothing")
-		}
-		if noFlush {
-			vAssert(len(dst.calls) == 0, "step.noflush_write_emits_nothing")
-		}
-		vAssert(w.dirty, "step.write_marks_dirty")
-	case 1: // ReadFrom
-		data := vBytes("p", pickLen())
-		src := vNewSrc(data, vChoose("mode", 2), "chunk")
-		k, err := w.ReadFrom(&src)
-		vAssert(vAnd(err == nil, int(k) == len(data)), "step.readfrom_accepts_all")
-		accepted = data
-		if noFlush {
-			vAssert(len(dst.calls) == 0, "step.noflush_readfrom_emits_nothing")
-		}
-		vAssert(w.dirty, "step.readfrom_marks_dirty")
-	case 2: // WriteThrough
-		p := vBytes("p", pickLen())
-		keep := append([]byte{}, p...)
-		k, err := w.WriteThrough(p)
-		vAssert(vEqBytes(p, keep), "step.writethrough_caller_intact")
-		if n != 0 {
-			vAssert(vAnd(err == ErrNotEmpty, vAnd(k == 0, len(dst.calls) == 0)), "step.writethrough_refuses_nonempty")
-		} else {
-			vAssert(vAnd(err == nil, k == len(p)), "step.writethrough_accepts_all")
-			accepted = keep
-			fs, ok := vParseFrames(dst.all)
-			vAssert(vAnd(ok, len(fs) == 1), "step.writethrough_one_frame")
-		}
-	case 3: // FlushFragment
-		err := w.FlushFragment()
-		vAssert(err == nil, "step.flushfragment_ok")
-		if n == 0 {
-			vAssert(len(dst.calls) == 0, "step.flushfragment_empty_emits_nothing")
-		}
-	case 4: // Flush
-		isFlush = true
-		err := w.Flush()
-		vAssert(err == nil, "step.flush_ok")
-		if !dirty0 {
-			vAssert(len(dst.calls) == 0, "step.flush_with_nothing_written_emits_nothing")
-		} else {
-			fs, ok := vParseFrames(dst.all)
-			vAssert(vAnd(ok, len(fs) == 1), "step.flush_one_frame")
-		}
-		vAssert(vAnd(w.fseq == 0, vAnd(!w.dirty, w.n == 0)), "step.flush_resets_message_state")
-	case 5: // Grow
-		k := pickLen() * (1 + vChoose("growx", 2))
-		w.Grow(k)
-		vAssert(len(dst.calls) == 0, "step.grow_emits_nothing")
-		vAssert(w.Available() >= k, "step.grow_available")
-		vAssert(w.Size() >= size0, "step.grow_never_shrinks")
-		vAssert(len(w.raw)-len(w.buf) == reserve(w.state, len(w.raw)), "step.grow_reserves_header_space")
-	}
-	// the wire: whole frames, correct headers
-	fs, ok := vParseFrames(dst.all)
-	vAssert(ok, "step.whole_frames")
-	if !ok {
-		return
-	}
-	var sent []byte
-	for i, f := range fs {
-		wantOp := byte(0)
-		if fseq0 == 0 && i == 0 {
-			wantOp = byte(op)
-		}
-		hdr := vAnd(f.op == wantOp, vAnd(f.rsv == 0, f.masked == !server))
-		hdr = vAnd(hdr, f.fin == (isFlush && i == len(fs)-1))
-		vAssert(hdr, "step.frame_header")
-		sent = append(sent, f.payload...)
-	}
-	// no byte lost, none invented, order kept
-	all := append(append([]byte{}, old...), accepted...)
-	now := append(append([]byte{}, sent...), w.buf[:w.n]...)
-	vAssert(vEqBytes(now, all), "step.bytes_conserved")
-	if !isFlush {
-		vAssert(w.fseq == fseq0+len(fs), "step.fseq_counts_frames")
-		vAssert(vImplies(w.fseq > 0, w.dirty), "step.invariant_fseq_dirty")
-		vAssert(vImplies(w.n > 0, w.dirty), "step.invariant_n_dirty")
-	}
-	vAssert(w.noFlush == noFlush, "step.noflush_kept")
-	vAssert(w.err == nil, "step.no_sticky_error")
-	vTraceBytes("sent", sent)
-}
-
-// C06_seq: bounded sequences of operations from a fresh writer of each constructor, ended by
-// Flush: exactly one well-formed message carrying all accepted bytes in order.
-func C06_seq() {
-	server := vChoose("side", 2) == 0
-	op := ws.OpCode(1 + vChoose("op", 2))
-	dst := &vDst{failAt: -1}
-	var w *Writer
-	bufLen := 3
-	switch vChoose("ctor", 4) {
-	case 0:
-		w = vMkWriter(dst, server, bufLen, op)
-	case 1:
-		w = NewWriterSize(dst, vSide(server), op, bufLen)
-	case 2:
-		w = NewWriterBufferSize(dst, vSide(server), op, bufLen+6)
-		bufLen = w.Size()
-	case 3:
-		w = GetWriter(dst, vSide(server), op, bufLen+6)
-		bufLen = w.Size()
-	}
-	if vChoose("noflush", 2) == 1 {
-		w.DisableFlush()
-	}
-	noFlush := w.noFlush
-	steps := 2 + vTier()
-	var accepted []byte
-	for s := 0; s < steps; s++ {
-		switch vChoose("kind", 4) {
-		case 0:
-			p := vBytes("p", []int{0, 1, 3, 4, 7}[vChoose("plen", 5)])
-			k, err := w.Write(p)
-			vAssert(vAnd(err == nil, k == len(p)), "seq.write_ok")
-			accepted = append(accepted, p...)
-		case 1:
-			data := vBytes("p", []int{0, 2, 4}[vChoose("plen", 3)])
-			src := vNewSrc(data, 0, "chunk")
-			k, err := w.ReadFrom(&src)
-			vAssert(vAnd(err == nil, int(k) == len(data)), "seq.readfrom_ok")
-			accepted = append(accepted, data...)
-		case 2:
-			vAssert(w.FlushFragment() == nil, "seq.flushfragment_ok")
-		case 3:
-			w.Grow(vChoose("grow", 9))
-		}
-		fs, ok := vParseFrames(dst.all)
-		vAssert(ok, "seq.whole_frames_at_call_boundary")
-		if noFlush && ok {
-			explicit := 0
-			_ = explicit
-			_ = fs
-		}
-	}
-	written := len(accepted) > 0 || w.dirty
-	vAssert(w.Flush() == nil, "seq.flush_ok")
-	fs, ok := vParseFrames(dst.all)
-	vAssert(ok, "seq.whole_frames")
-	if !ok {
-		return
-	}
-	if !written {
-		vAssert(len(fs) == 0, "seq.nothing_written_nothing_sent")
-		return
-	}
-	vAssert(len(fs) >= 1, "seq.at_least_one_frame")
-	var sent []byte
-	for i, f := range fs {
-		wantOp := byte(0)
-		if i == 0 {
-			wantOp = byte(op)
-		}
-		hdr := vAnd(f.op == wantOp, vAnd(f.rsv == 0, vAnd(f.masked == !server, f.fin == (i == len(fs)-1))))
-		vAssert(hdr, "seq.frame_header")
-		sent = append(sent, f.payload...)
-	}
-	vAssert(vEqBytes(sent, accepted), "seq.payload_is_accepted_bytes")
-	// a second message after the flush starts with the configured opcode again
-	w.Write([]byte{'z'})
-	w.Flush()
-	fs2, ok2 := vParseFrames(dst.all)
-	vAssert(vAnd(ok2, len(fs2) == len(fs)+1), "seq.second_message_one_frame")
-	if ok2 && len(fs2) == len(fs)+1 {
-		l := fs2[len(fs2)-1]
-		vAssert(vAnd(l.op == byte(op), vAnd(l.fin, vEqBytes(l.payload, []byte{'z'}))), "seq.second_message_header")
-	}
-}
-
-// C06_helpers: WriteMessage and friends emit exactly one final frame with the payload.
-func C06_helpers() {
-	server := vChoose("side", 2) == 0
-	op := ws.OpCode([]byte{1, 2, 9}[vChoose("op", 3)])
-	p := vBytes("p", []int{0, 1, 5, 126}[vChoose("plen", 4)])
-	keep := append([]byte{}, p...)
-	dst := &vDst{failAt: -1}
-	vAssert(WriteMessage(dst, vSide(server), op, p) == nil, "helpers.ok")
-	vAssert(vEqBytes(p, keep), "helpers.caller_intact")
-	fs, ok := vParseFrames(dst.all)
-	vAssert(vAnd(ok, len(fs) == 1), "helpers.one_frame")
-	if ok && len(fs) == 1 {
-		f := fs[0]
-		vAssert(vAnd(f.fin, vAnd(f.op == byte(op), vAnd(f.rsv == 0, f.masked == !server))), "helpers.header")
-		vAssert(vEqBytes(f.payload, keep), "helpers.payload")
-	}
-}
-
-// C06_grow_thresholds: Grow with bytes already buffered, at totals around the 125/126 header
-// threshold (and its client-side twin 249/250): buffered bytes are preserved and leave as the
-// message payload.
-func C06_grow_thresholds() {
-	server := vChoose("side", 2) == 0
-	op := ws.OpBinary
-	dst := &vDst{failAt: -1}
-	w := NewWriterSize(dst, vSide(server), op, []int{16, 60}[vChoose("size", 2)])
-	b := []int{1, 25, 49}[vChoose("buffered", 3)]
-	if b > w.Size() {
-		b = w.Size()
-	}
-	totals := []int{124, 125, 126, 127, 248, 249, 250, 251}
-	if vTier() > 0 {
-		totals = append(totals, 65533, 65534, 65535, 65536, 65537)
-	}
-	total := totals[vChoose("total", len(totals))]
-	old := vBytes("old", b)
-	w.DisableFlush()
-	k0, err := w.Write(old)
-	vAssert(vAnd(err == nil, k0 == b), "grow.first_write")
-	if vChoose("how", 2) == 0 {
-		w.Grow(total - b)
-		vAssert(w.Available() >= total-b, "grow.available")
-	} else {
-		// a plain write with flushing disabled grows the buffer itself
-		rest := make([]byte, total-b)
-		rest[0], rest[len(rest)-1] = vU8("r0"), vU8("r1")
-		k1, err := w.Write(rest)
-		vAssert(vAnd(err == nil, k1 == len(rest)), "grow.second_write")
-		old = append(old, rest...)
-	}
-	vAssert(w.Buffered() == len(old), "grow.buffered_count")
-	vAssert(vEqBytes(w.buf[:w.n], old), "grow.buffered_bytes_preserved")
-	vAssert(len(w.raw)-len(w.buf) == reserve(w.state, len(w.raw)), "grow.header_space")
-	vAssert(len(dst.calls) == 0, "grow.nothing_sent")
-	vAssert(w.Flush() == nil, "grow.flush_ok")
-	fs, ok := vParseFrames(dst.all)
-	vAssert(vAnd(ok, len(fs) == 1), "grow.one_frame")
-	if ok && len(fs) == 1 {
-		vAssert(vAnd(fs[0].fin, vAnd(fs[0].op == byte(op), fs[0].masked == !server)), "grow.frame_header")
-		vAssert(vEqBytes(fs[0].payload, old), "grow.payload_is_accepted_bytes")
-	}
 }
